@@ -139,7 +139,11 @@ func (p *Program) resolveExecutors() {
 				}
 				name := strings.Trim(k.Value.ExactString(), "\"")
 				var target *ssa.Function
-				switch v := c.Call.Args[2].(type) {
+				arg := c.Call.Args[2]
+				if ct, ok := arg.(*ssa.ChangeType); ok {
+					arg = ct.X
+				}
+				switch v := arg.(type) {
 				case *ssa.MakeClosure:
 					target = v.Fn.(*ssa.Function)
 				case *ssa.Function:
